@@ -1,6 +1,7 @@
 import CashewsVerif.Lemmas.Decor.Early
 import CashewsVerif.Lemmas.Decor.SoftFail
 import CashewsVerif.Lemmas.Decor.HitStep
+import CashewsVerif.Lemmas.Decor.Overlap
 /-
 C14 — early / soft / failover / hit keep their staleness and reuse bounds.
 
@@ -492,6 +493,99 @@ theorem hit_only_ok_stores (c : Hit.Cfg) (ops : List DOp) (o : Outcome) (d : Nat
   have h2 := Hit.done_main c st i o ho
   exact Hit.cached2_congr h2.2 h2.1
 
+/-! ## overlapping calls of one key (failover; soft without single-flight protection)
+
+Only the sentence about `hit` is restricted to sequential histories.  Here a call is not atomic: it begins, other calls
+begin or finish and time passes, and later its function body finishes (`Overlap.COp`: `begin`, `fin i o`, `adv`). -/
+
+/-- **failover, overlapping calls: the function is executed on every call, and a stored result is returned only to a
+call whose OWN execution raised a listed exception, and only younger than ttl at that instant.**  In every history of
+overlapping calls: every call that begins enters the function with an execution of its own (it is never answered
+without executing, never attached to another call's execution), whatever other calls are inside the function at that
+moment; and when the body of a pending call finishes with outcome `o`, that call is answered — a stored result only if
+`o` is a listed exception and the result (whoever stored it, possibly an overlapping call a moment ago) is younger than
+ttl now; a fresh result only if its own execution returned, stamped now. -/
+theorem failover_overlapping_calls (c : Fail.Cfg) (httl : 0 < c.ttl) (ops : List Overlap.COp) :
+    ∀ e ∈ trace (Overlap.failStep c) Overlap.init ops,
+      (e.2.1 = .begin → e.2.2 = .began e.1.next ∧
+        (Overlap.failStep c e.1 e.2.1).1.pending = e.1.pending ++ [e.1.next] ∧
+        (Overlap.failStep c e.1 e.2.1).1.next = e.1.next + 1) ∧
+      (∀ i o r, e.2.1 = .fin i o → e.2.2 = .answered r →
+        (∃ id, e.1.pending[i]? = some id ∧ ∀ s j, r = .fresh s j → j = id) ∧
+        (∀ s j, r = .stored s j → o = .listed ∧ s ≤ e.1.t.now ∧ e.1.t.now < s + c.ttl) ∧
+        (∀ s j, r = .fresh s j → s = e.1.t.now ∧ o.returns = true)) := by
+  intro e he
+  obtain ⟨hinv, hans⟩ := (trace_inv' (Overlap.failStep c) (fun s => KeyWf2 c.ttl s.t)
+    (fun s o h => Overlap.failStep_wf httl s o h) ops Overlap.init (wf2_init _)).2 e he
+  obtain ⟨s0, op, ans⟩ := e
+  simp only at hinv hans ⊢
+  subst hans
+  refine ⟨fun hop => ?_, fun i o r hop hr => ?_⟩
+  · subst hop; exact ⟨rfl, rfl, rfl⟩
+  · subst hop
+    simp only [Overlap.failStep, Overlap.finishWith] at hr
+    cases hp : s0.pending[i]? with
+    | none => simp [hp] at hr
+    | some id =>
+      simp [hp] at hr
+      subst hr
+      have h := Overlap.failFinish_res hinv id o
+      exact ⟨⟨id, rfl, fun s j hf => (h.2 s j hf).2.1⟩, h.1, fun s j hf => ⟨(h.2 s j hf).1, (h.2 s j hf).2.2⟩⟩
+
+/-- **soft (no single-flight protection), overlapping calls: never a value older than ttl, and a stale one only after the
+call's own recomputation raised a listed exception.**  In every history of overlapping calls: a call that begins is
+either answered at once with the stored result, which is then younger than soft_ttl (and than ttl), nothing being
+executed — or it enters the function with an execution of its own; and when the body of a pending call finishes with
+outcome `o`, a stored result is handed out only if `o` is a listed exception and the result that is in the store AT THAT
+INSTANT (possibly written by an overlapping call meanwhile — not the one this call read when it began) is younger than
+ttl; a fresh result only if its own execution returned, stamped now. -/
+theorem soft_overlapping_calls (c : Soft.Cfg) (httl : 0 < c.ttl) (ops : List Overlap.COp) :
+    ∀ e ∈ trace (Overlap.softStep c) Overlap.init ops,
+      (e.2.1 = .begin →
+        (e.2.2 = .began e.1.next ∧ (Overlap.softStep c e.1 e.2.1).1.pending = e.1.pending ++ [e.1.next] ∧
+          ∀ s j x, cached3 e.1.t = some (s, j, x) → s + c.soft ≤ e.1.t.now) ∨
+        (∃ s j, e.2.2 = .served (.stored s j) ∧ s ≤ e.1.t.now ∧ e.1.t.now < s + c.soft ∧ e.1.t.now < s + c.ttl ∧
+          (Overlap.softStep c e.1 e.2.1).1 = e.1)) ∧
+      (∀ i o r, e.2.1 = .fin i o → e.2.2 = .answered r →
+        (∃ id, e.1.pending[i]? = some id ∧ ∀ s j, r = .fresh s j → j = id) ∧
+        (∀ s j, r = .stored s j → o = .listed ∧ s ≤ e.1.t.now ∧ e.1.t.now < s + c.ttl) ∧
+        (∀ s j, r = .fresh s j → s = e.1.t.now ∧ o.returns = true)) := by
+  intro e he
+  obtain ⟨hinv, hans⟩ := (trace_inv' (Overlap.softStep c) (fun s => KeyWf3 c.ttl c.soft s.t)
+    (fun s o h => Overlap.softStep_wf httl s o h) ops Overlap.init (wf3_init _ _)).2 e he
+  obtain ⟨s0, op, ans⟩ := e
+  simp only at hinv hans ⊢
+  subst hans
+  refine ⟨fun hop => ?_, fun i o r hop hr => ?_⟩
+  · subst hop
+    simp only [Overlap.softStep]
+    cases hc : cached3 s0.t with
+    | none => exact Or.inl ⟨rfl, rfl, by simp⟩
+    | some p =>
+      obtain ⟨st, id, x⟩ := p
+      have hs := cached3_spec hinv hc
+      simp only []
+      by_cases hn : s0.t.now < x
+      · rw [if_pos hn]
+        exact Or.inr ⟨st, id, rfl, hs.2.1, by rw [← hs.1]; exact hn, hs.2.2.1, rfl⟩
+      · rw [if_neg hn]
+        refine Or.inl ⟨rfl, rfl, ?_⟩
+        intro s j x' h
+        simp at h
+        obtain ⟨h1, _, h3⟩ := h
+        subst h1 h3
+        rw [hs.1] at hn
+        omega
+  · subst hop
+    simp only [Overlap.softStep, Overlap.finishWith] at hr
+    cases hp : s0.pending[i]? with
+    | none => simp [hp] at hr
+    | some id =>
+      simp [hp] at hr
+      subst hr
+      have h := Overlap.softFinish_res hinv id o
+      exact ⟨⟨id, rfl, fun s j hf => (h.2 s j hf).2.1⟩, h.1, fun s j hf => ⟨(h.2 s j hf).1, (h.2 s j hf).2.2⟩⟩
+
 /-! ## Non-vacuity: the models do something, and the hypotheses are satisfiable by interesting histories -/
 
 /-- early, ttl 2 s, early_ttl ½ s, background on: store; 5/8 s later the call starts a refresh and is
@@ -651,5 +745,23 @@ the call (mirrored). -/
 example : answers (trace (Hit.step ⟨16, 2, 1, false⟩) Hit.init [.call .ok 2, .call .ok 3, .adv 15, .call .ok 2, .call .listed 0]) =
     [.call ⟨.fresh 2 0, true, false⟩, .call ⟨.stored 2 0, true, true⟩, .ok, .call ⟨.stored 5 1, true, true⟩,
      .call ⟨.raised .listed, true, true⟩] := by decide
+
+/-! ### … with overlapping calls (ttl 2 s = 16 ticks, soft_ttl ½ s = 4 ticks) -/
+
+/-- failover: a result is stored at 0; at 14 call A enters the function, then call B (its own execution, ordinal 2); B's
+body raises a listed exception at 15 and falls back to `(0,0)` (aged 15); A's body raises at 17: `(0,0)` is gone, A raises.
+With the seeded change C14-10 (failover single-flight) B would never execute and be handed A's outcome. -/
+example : answers (trace (Overlap.failStep ⟨16⟩) Overlap.init
+      [.begin, .fin 0 .ok, .adv 14, .begin, .begin, .adv 1, .fin 1 .listed, .adv 2, .fin 0 .listed]) =
+    [.began 0, .answered (.fresh 0 0), .ok, .began 1, .began 2, .ok, .answered (.stored 0 0), .ok,
+     .answered (.raised .listed)] := by decide
+
+/-- soft: `(0,0)` stored; at 14 (stale) call A enters the function, at 15 call B too; B returns at 15 and stores `(15,2)`;
+A's body raises a listed exception at 17: A is answered with what is in the store NOW, `(15,2)` aged 2 — not with the
+`(0,0)` it read when it began, 17 ticks old (the seeded change C14-11 serves that one: the key "exists"). -/
+example : answers (trace (Overlap.softStep ⟨16, 4⟩) Overlap.init
+      [.begin, .fin 0 .ok, .adv 3, .begin, .adv 11, .begin, .adv 1, .begin, .fin 1 .ok, .adv 2, .fin 0 .listed, .begin]) =
+    [.began 0, .answered (.fresh 0 0), .ok, .served (.stored 0 0), .ok, .began 1, .ok, .began 2, .answered (.fresh 15 2), .ok,
+     .answered (.stored 15 2), .served (.stored 15 2)] := by decide
 
 end CashewsVerif.Props.C14
